@@ -1313,7 +1313,9 @@ func (e *Engine) doCall(fr *frame, c *ssa.CallCommon) Val {
 	case *ssa.Function:
 		return e.call(f, args, nil)
 	}
-	return e.callValue(e.get(fr, c.Value), args)
+	fv := e.get(fr, c.Value)
+	e.checkFuncReinterpretation(fv, c)
+	return e.callValue(fv, args)
 }
 
 func (e *Engine) runDeferred(d deferred) {
@@ -1333,6 +1335,42 @@ func (e *Engine) runDeferred(d deferred) {
 			e.call(f, d.args, nil)
 		case *ssa.Builtin:
 			e.builtin(f.Name(), d.args, c)
+		}
+	}
+}
+
+// checkFuncReinterpretation: a function value called through a function type other
+// than its own (possible only after an unsafe pointer conversion of the function
+// value). Pointer parameters may differ (that is what such conversions are for), but
+// an interface parameter declared with one interface type and called with a value of
+// another interface type reads the caller's method table with the wrong layout.
+func (e *Engine) checkFuncReinterpretation(f Val, c *ssa.CallCommon) {
+	var fn *ssa.Function
+	switch f := f.(type) {
+	case *ssa.Function:
+		fn = f
+	case Closure:
+		fn = f.fn
+	}
+	if fn == nil || fn.Signature == nil {
+		return
+	}
+	cs, ok := c.Value.Type().Underlying().(*types.Signature)
+	if !ok || cs.Params().Len() != fn.Signature.Params().Len() {
+		return
+	}
+	for i := 0; i < cs.Params().Len(); i++ {
+		a, b := cs.Params().At(i).Type(), fn.Signature.Params().At(i).Type()
+		if _, isTP := a.(*types.TypeParam); isTP {
+			continue
+		}
+		if _, isTP := b.(*types.TypeParam); isTP {
+			continue
+		}
+		ai, aok := a.Underlying().(*types.Interface)
+		bi, bok := b.Underlying().(*types.Interface)
+		if aok != bok || aok && !types.Identical(ai, bi) {
+			e.goPanic("invalid reinterpretation: function %s declared with parameter %d of type %v called through a function type whose parameter is %v", fn.Name(), i, b, a)
 		}
 	}
 }
